@@ -195,6 +195,14 @@ fn expect_clean(v: &mut Verdict, o: &Outcome, what: &str) -> Option<bool> {
     if o.alloc.overflow > 0 {
         v.add("guard_arena_overflow_requests", o.alloc.overflow);
     }
+    if o.alloc.requests > 0 {
+        // how often each allocator decision actually happened (fault-kind counters)
+        v.add("fired_alloc_guarded_requests", o.alloc.requests);
+        v.add("fired_alloc_placed_flush_right", o.alloc.right_placed);
+        v.add("fired_alloc_placed_flush_left", o.alloc.left_placed);
+        v.add("fired_alloc_same_address_reuse", o.alloc.reused);
+        v.add("fired_alloc_zeroed_requests", o.alloc.zeroed);
+    }
     match &o.result {
         ExecResult::Returned(f) => Some(*f),
         ExecResult::Error(e) => {
@@ -255,6 +263,21 @@ fn note_ref(v: &mut Verdict, r: &RefRun) {
     }
     if r.accelerated > 0 {
         v.bump("ref_used_acceleration");
+    }
+    let (mut n_in, mut n_eof, mut n_out) = (0u64, 0u64, 0u64);
+    for e in &r.events {
+        match e {
+            Ev::In(Some(_)) => n_in += 1,
+            Ev::In(None) => n_eof += 1,
+            Ev::Out(_) => n_out += 1,
+            _ => {}
+        }
+    }
+    v.add("ref_live_input_requests", n_in);
+    v.add("ref_reads_at_end_of_input", n_eof);
+    v.add("ref_outputs", n_out);
+    if n_eof > 0 && n_in > 0 {
+        v.bump("ref_end_of_input_mid_run");
     }
 }
 
